@@ -91,6 +91,10 @@ var fnReg = map[string]FnEntry{
 	"implBB":   {2, "bool", "bool", func(x, y bool) bool { return !x || y }},
 	"prefixSS": {2, "string", "bool", func(x, y *string) bool { return x != nil && y != nil && strings.HasPrefix(*y, *x) }},
 	// aggregations: slice -> value
+	"lenAggI":   {-1, "int", "int", func(v []int) int { return len(v) }},
+	"spanAggI":  {-1, "int", "int", func(v []int) int { lo, hi := v[0], v[0]; for _, x := range v { if x < lo { lo = x }; if x > hi { hi = x } }; return hi - lo }},
+	"digAggF":   {-1, "float", "float", func(v []float64) float64 { r := 1.0; for _, x := range v { r = r/2 + x }; return r }},
+	"noneAggB":  {-1, "bool", "bool", func(v []bool) bool { for _, x := range v { if x { return false } }; return true }},
 	"firstAggI": {-1, "int", "int", func(v []int) int { return v[0] }},
 	"lastAggI":  {-1, "int", "int", func(v []int) int { return v[len(v)-1] }},
 	"altAggI":   {-1, "int", "int", func(v []int) int { r := 0; for i, x := range v { if i%2 == 0 { r += x } else { r -= x } }; return r }},
